@@ -42,8 +42,9 @@ if P and P.get('kind') == 'lex':
     PART = alpha.partition(alpha.terminal_patterns(LARK), universe=range(256) if BYTES else range(0x250), is_bytes=BYTES)
     REPS = PART.reps(hs.SEED)
     K = PART.K
-    TERMS = lexref.from_lark(LARK, as_bytes=BYTES)
+    TERMS = lexref.from_dsl(GRAMMAR, LARK, as_bytes=BYTES)
     LEXER = hs.basic_lexer_of(LARK)
+    IGNORE_NAMES = [n for n in GRAMMAR.ignore if not (n.startswith('/') or n.startswith('"'))] + [str(t.name) for t in LARK.terminals if str(t.name).startswith('__IGNORE')]
 
 if P and P.get('kind') == 'many':
     from lark import Lark
@@ -182,7 +183,7 @@ def _lex_body(rec, cs):
         ignore = ['__IGNORE_0']
     else:
         text = hs.class_string(cs, REPS, use_bytes=BYTES)
-        ignore = GRAMMAR.ignore
+        ignore = IGNORE_NAMES
     got = gerr = None
     try:
         got = [(t.type, t.value, t.start_pos, t.end_pos) for t in hs.lex_tokens(LEXER, text)]
@@ -349,7 +350,7 @@ def disjoint_grammars():
 def plan(tier, seed):
     quick = tier == 'quick'
     slices = []
-    Ks = {'kwid': 12, 'prio': 5, 'prio2': 9, 'eqw': 6, 'ci': 10}
+    Ks = {'kwid': 12, 'prio': 5, 'prio2': 9, 'eqw': 6, 'ci': 10, 'ign_inline': 6, 'xflag': 6}
     budget = 60 if quick else 1200
     for g, k in Ks.items():
         for by in (False, True):
@@ -406,7 +407,7 @@ def plan(tier, seed):
                               'BasicLexer.next_token/lex', 'ContextualLexer.__init__/lex', 'LALR parse'],
         'bounds': {'chars': 'per grammar, see conditions', 'terminals_many': MANY_N + 1, 'ctx_grammars_with_disjoint_regexps': ctx_ok},
         'outside_bounds': ['longer inputs', 'terminal sets outside the corpus', 'string terminals whose literal is outside the language of a regexp that nevertheless matches them case-insensitively'],
-        'stubs_and_assumes': ['terminal definitions (pattern, priority, max width, pattern length) are read from the built parser and are inputs of the reference lexer; '
-                              'ordering, matching and the keyword exception are re-done by the reference'],
+        'stubs_and_assumes': ['the reference lexer takes terminal patterns and priorities from the DSL grammar as written and computes widths itself (sre_parse on the regexp with its flags); '
+                              'the built parser is consulted only for the names it gave to anonymous terminals'],
     }
     return {'slices': slices, 'lemmas': lemmas, 'meta': meta}
